@@ -558,28 +558,18 @@ func (r *recVisitor) Visit(s *df.AnalyzerState, e df.NodeWithTrace) {
 	}
 }
 
+// probeAlarms reads the alarm counter of the analyzer state (unexported atomic field numAlarms) directly, so that the
+// observation does not depend on TestAlarmCount / IncrementAndTestAlarms, which are under test.
 func probeAlarms(s *df.AnalyzerState) int {
-	// number of alarms counted so far: smallest m >= 1 with  num < m
-	old := s.Config.MaxAlarms
-	defer func() { s.Config.MaxAlarms = old }()
-	lo, hi := 1, 1
-	for {
-		s.Config.MaxAlarms = hi
-		if s.TestAlarmCount() {
-			break
-		}
-		hi *= 2
+	f := reflect.ValueOf(s).Elem().FieldByName("numAlarms")
+	if !f.IsValid() {
+		panic("AnalyzerState.numAlarms not found")
 	}
-	for lo < hi {
-		mid := (lo + hi) / 2
-		s.Config.MaxAlarms = mid
-		if s.TestAlarmCount() {
-			hi = mid
-		} else {
-			lo = mid + 1
-		}
+	v := f.FieldByName("v")
+	if !v.IsValid() {
+		panic("atomic.Int32 value field not found")
 	}
-	return lo - 1
+	return int(v.Int())
 }
 
 func tri(flag string, cur bool) bool {
